@@ -61,32 +61,7 @@ def checkpoint_edges(body, name="checkpoint"):
     for T in all_tests(body):
         if T.kind == "local" and _operand_is(body, T.operand, keys):
             edges.append(T.true_edge)
-    changed = True
-    rounds = 0
-    while changed and rounds < 4:
-        changed = False
-        rounds += 1
-        for T in all_tests(body):
-            if T.kind != "discr" or T.place["p"]:
-                continue
-            l = T.place["l"]
-            if not body.local_ty(l).startswith("std::option::Option"):
-                continue
-            e = _option_some_edge(T)
-            if not e or e in edges:
-                continue
-            some_sites, ok = [], True
-            for site, rv in _value_defs(body, l):
-                if rv["k"] == "agg" and rv.get("akind") == "adt":
-                    if rv.get("variant") in ("Some", 1):
-                        some_sites.append(site)
-                elif rv["k"] == "use" and rv["op"].get("k") == "const":
-                    pass        # a constant None
-                else:
-                    ok = False  # a call result or something else: unknown
-            if ok and some_sites and all(any(body.edge_guards(ge, s_.bb) for ge in edges) for s_ in some_sites):
-                edges.append(e)
-                changed = True
+    edges = derive_some_edges(body, edges, lambda c: checkpoint_edges(c, name))
     _CE_CACHE[ck] = edges
     return edges
 
@@ -171,6 +146,139 @@ def _value_defs(body, local, field=None, depth=0, seen=None):
             yield site, rv
 
 
+def _closure_call_sites(body, clo):
+    """call sites in `body` of the closure body `clo` (through the local that holds the closure value)"""
+    holders = set()
+    for site, st in body.assigns():
+        rv = st["rv"]
+        if rv["k"] == "agg" and rv.get("akind") == "closure" and rv.get("name") == clo.name and not st["place"]["p"]:
+            holders.add(st["place"]["l"])
+    out = []
+    for c in body.calls():
+        cn = strip_generics(c.node.get("callee") or "")
+        if cn == strip_generics(clo.name):
+            out.append(c)       # the call is resolved to the closure body itself
+            continue
+        if not re.search(r"ops::function::Fn(Mut|Once)?::call(_mut|_once)?$|ops::Fn(Mut|Once)?>::call(_mut|_once)?$|::call_mut$|::call_once$|::call$", cn):
+            continue
+        if not c.node["args"]:
+            continue
+        a0 = c.node["args"][0]
+        l0 = op_local(body.resolve_copy(a0))
+        bl = borrowed_local(body, a0)
+        if l0 in holders or bl in holders:
+            out.append(c)
+    return out, holders
+
+
+def derive_some_edges(body, edges, inner_edges_fn=None):
+    """Extend `edges` (edges on which a flag F is known to hold) by the Some edge of every test of an Option local
+    that can be Some only under F: all its Some(..) values are built under F - in this body, or in a closure of it
+    that captures the local by reference, where `under F` means guarded by F's edges inside the closure
+    (inner_edges_fn) or the closure being called only under F."""
+    edges = list(edges)
+    facts = getattr(body, "facts", None)
+    changed, rounds = True, 0
+    while changed and rounds < 4:
+        changed = False
+        rounds += 1
+        cands = []
+        for T in all_tests(body):
+            if T.kind != "discr" or T.place["p"]:
+                continue
+            l = T.place["l"]
+            ty = body.local_ty(l)
+            if ty.startswith("std::option::Option"):
+                e = _option_some_edge(T)
+                if e:
+                    cands.append((T, e, ("Some", 1)))
+            elif facts is not None:
+                adt = facts.adts.get(ty) or facts.adts.get(strip_generics(ty))
+                if adt and len(adt.get("variants", [])) >= 2:
+                    for vi, e in T.variant_edges.items():
+                        if isinstance(vi, int) and vi < len(adt["variants"]):
+                            cands.append((T, e, (adt["variants"][vi]["name"],)))
+        for T, e, wanted in cands:
+            l = T.place["l"]
+            if not e or e in edges:
+                continue
+            # the named variable the tested value is a copy of
+            roots = {l}
+            o = body.resolve_copy({"k": "copy", "place": {"l": l, "p": []}})
+            if op_local(o) is not None:
+                roots.add(op_local(o))
+            some_ok, n_some, ok = True, 0, True
+            clos = {strip_generics(c_.name): c_ for c_ in facts.closures_of(body, recursive=False)} if facts is not None and body.kind != "Closure" else {}
+            for r in roots:
+                for site, rv in _value_defs(body, r):
+                    if rv["k"] == "agg" and rv.get("akind") == "adt":
+                        if rv.get("variant") in wanted:
+                            n_some += 1
+                            if not any(body.edge_guards(ge, site.bb) for ge in edges):
+                                some_ok = False
+                    elif rv["k"] == "use" and rv["op"].get("k") == "const":
+                        pass
+                    elif rv["k"] == "call" and strip_generics(rv["node"].get("callee") or "") in clos:
+                        # the value a closure of this body returns: Some only where the closure builds Some
+                        clo = clos[strip_generics(rv["node"].get("callee") or "")]
+                        if any(body.edge_guards(ge, site.bb) for ge in edges):
+                            n_some += 1
+                            continue
+                        inner = inner_edges_fn(clo) if inner_edges_fn else []
+                        for vsite, vrv in _value_defs(clo, 0):
+                            if vrv["k"] == "agg" and vrv.get("akind") == "adt":
+                                if vrv.get("variant") in wanted:
+                                    n_some += 1
+                                    if not any(clo.edge_guards(ge, vsite.bb) for ge in inner):
+                                        some_ok = False
+                            elif vrv["k"] == "use" and vrv["op"].get("k") == "const":
+                                pass
+                            else:
+                                ok = False
+                    else:
+                        ok = False
+            # stores made by closures that capture the variable
+            names = {body.local_name(r) for r in roots if body.local_name(r)}
+            if facts is not None and names and body.kind != "Closure":
+                for clo in facts.closures_of(body, recursive=False):
+                    for nm in names:
+                        cap = clo.captured(nm)
+                        if cap is None:
+                            continue
+                        inner = inner_edges_fn(clo) if inner_edges_fn else []
+                        calls, holders = _closure_call_sites(body, clo)
+                        called_under = bool(calls) and all(any(body.edge_guards(ge, c.bb) for ge in edges) for c in calls)
+                        ck = place_key(cap)
+                        for site, st in clo.assigns():
+                            pl = st["place"]
+                            pk = place_key(clo.canon_place(pl)) if pl["p"] else place_key(pl)
+                            if pk[:len(ck)] != ck and not (ck[-1] == "*" and pk == ck[:-1]):
+                                continue
+                            rest = pk[len(ck):]
+                            if rest not in ((), ("*",)):
+                                ok = False
+                                continue
+                            rv = st["rv"]
+                            vals = [(site, rv)]
+                            if rv["k"] == "use" and op_local(rv["op"]) is not None:
+                                vals = list(_value_defs(clo, op_local(rv["op"])))
+                            for vsite, vrv in vals:
+                                if vrv["k"] == "agg" and vrv.get("akind") == "adt" and vrv.get("variant") in wanted:
+                                    n_some += 1
+                                    if not (called_under or (any(clo.edge_guards(ge, vsite.bb) for ge in inner) or any(clo.edge_guards(ge, site.bb) for ge in inner))):
+                                        some_ok = False
+                                elif vrv["k"] == "agg" and vrv.get("akind") == "adt":
+                                    pass
+                                elif vrv["k"] == "use" and vrv["op"].get("k") == "const":
+                                    pass
+                                else:
+                                    ok = False
+            if ok and some_ok and n_some:
+                edges.append(e)
+                changed = True
+    return edges
+
+
 def stateful_edges(body, so_name="start_offset"):
     """Edges on which `start_offset` is None.  Besides direct tests of the parameter, an
     Option<RwLockWriteGuard<ColReaderInfo>> local whose Some(..) values are all built in
@@ -199,6 +307,8 @@ def stateful_edges(body, so_name="start_offset"):
                     witnesses.append(l)
         wkeys = [place_key({"l": w, "p": []}) for w in witnesses]
         edges = edges + option_edges(body, wkeys, want_none=False)
+    if body.kind != "Closure" and edges:
+        edges = derive_some_edges(body, edges, None)
     return edges, witnesses
 
 
